@@ -47,6 +47,18 @@ def project_form(v, T):
     return {"k": "list", "items": [generic_project(x, T) for x in v]}
 
 
+def leb_bytes(v, signed):
+    """Reference LEB128 encoding (only to build INPUTS at interesting values; the specification judges what they decode to)."""
+    out = bytearray()
+    while True:
+        b = v & 0x7F
+        v >>= 7
+        done = (v == 0 and not (signed and b & 0x40)) or (signed and v == -1 and b & 0x40)
+        out.append(b | (0 if done else 0x80))
+        if done:
+            return bytes(out)
+
+
 def gen_bytes(rnd, n):
     r = rnd.random()
     if r < 0.5:
@@ -195,6 +207,23 @@ class ScalarCheck:
                     events.append(ev)
                     rid += 1
                     coverage.add(name)
+                if T.size is None:
+                    # LEB128: the encodings of integers at the 7-bit group boundaries, up to 10+ bytes, as inputs
+                    signed = name.startswith("i")
+                    for k in (6, 7, 13, 14, 34, 35, 55, 56, 62, 63, 64, 69, 70):
+                        for val in ((1 << k) - 1, 1 << k, -(1 << k), -(1 << k) - 1):
+                            if val < 0 and not signed:
+                                continue
+                            data = leb_bytes(val, signed) + b"\x55"
+                            st = io.BytesIO(data)
+                            ev = {"id": rid, "ev": "Read", "name": name, "align": False, "ptr": 8, "input": list(data), "size": -1, "alignment": 1}
+                            try:
+                                v = T.read(st)
+                                ev.update(status="ok", v=generic_project(v, T), pos=st.tell())
+                            except Exception as ex:  # noqa: BLE001
+                                ev.update(status=codec.classify(ex), v=codec.NONE_V, pos=0)
+                            events.append(ev)
+                            rid += 1
                 if isinstance(T, type) and issubclass(T, int):
                     # boundary integers written directly (encoded as specified, or refused because they do not fit)
                     vals = {0, 1, -1}
